@@ -1,5 +1,7 @@
 package main
 
+import "strings"
+
 // C01: text output obeys the tree-drawing rule.
 // Correspondence: real OutputFromMarkdown (iterator path and batch path) vs the Lean model's
 // outputIter/outputBatch, which is proved equal to the specification renderer (Props/C01.lean).
@@ -53,6 +55,31 @@ func runC01(ctx *Ctx) *Report {
 		c.Mode = "iter-text"
 		c.Doc, c.DocText, c.Tree = hx(doc), docText(doc), encForest(f)
 		cases = append(cases, c)
+	}
+	// a wide parent whose k-th child's name comes again later (equally named siblings are one node)
+	for _, w := range []int{15, 16, 17, 18, 19, 31, 32, 33, 34, 63, 64, 65, 66, 129} {
+		for _, again := range []int{0, 15, 16, 17, w / 2, w - 2, w - 1} {
+			if again < 0 || again >= w {
+				continue
+			}
+			var sb strings.Builder
+			sb.WriteString("- p\n")
+			for j := 0; j < w; j++ {
+				sb.WriteString("  - c" + fmtInt(j) + "\n")
+			}
+			sb.WriteString("  - c" + fmtInt(again) + "\n    - under\n  - tail\n")
+			c := newCase("out")
+			c.Mode, c.Doc, c.DocText, c.Note = "iter-text", hxs(sb.String()), "<"+fmtInt(w)+" children, child "+fmtInt(again)+" again>", "wide-repeat"
+			cases = append(cases, c)
+		}
+	}
+	// list roots before the first heading, the same rows on both sides of it
+	for _, d := range []string{"- a\n  - x\n# h\n- a\n  - x\n- b\n", "- a\n- b\n# h\n- a\n- b\n  - c\n# k\n- a\n", "* r\n\t* s\n# h\n* r\n\t* s\n\t\t* t\n", "- a\n  - x\n## h\n- a\n  - x\n#k\n- a\n  - x\n"} {
+		for _, mode := range []string{"iter-text", "batch-text"} {
+			c := newCase("out")
+			c.Mode, c.Doc, c.DocText, c.Note = mode, hxs(d), d, "list-roots-then-headings"
+			cases = append(cases, c)
+		}
 	}
 	// forests that are large in one dimension: depth, fan-out, number of roots, name length, total size
 	for bi, name := range bigShapeOrder {
@@ -113,7 +140,7 @@ func runC01(ctx *Ctx) *Report {
 		}
 	}
 	runCases(rep, cases, ctx.Workers, func(c Case) bool {
-		return c.Tree == "" || nonTrivialEnc(c.Tree)
+		return c.Tree == "" || c.Note != "" || nonTrivialEnc(c.Tree)
 	})
 	return rep
 }
